@@ -3,6 +3,7 @@ package main
 import (
 	"fmt"
 	"go/token"
+	"go/types"
 	"sort"
 	"strings"
 
@@ -273,4 +274,56 @@ func ruleC17_2(c *Ctx, r *Rep) {
 		}
 		r.Check("C17.2", "C17.2:unknown-path-rejected@"+sp.h, h.Pos(), okDef, "", "an unknown update-mask path is not rejected with an error")
 	}
+}
+
+// C17.3: in the stored-duration codec, a floating-point value computed from the parsed digits is never
+// truncated to an integer (decimal fractions are not exact in binary floating point, so truncation loses a
+// nanosecond for some inputs). Floats that depend only on lengths (math.Pow10(len(..))) are exact and allowed.
+func ruleC17_3(c *Ctx, r *Rep) {
+	n := 0
+	for _, f := range c.Funcs {
+		if c.PkgOf(f) != "internal/sqltypes" {
+			continue
+		}
+		for _, b := range f.Blocks {
+			for _, in := range b.Instrs {
+				cv, ok := in.(*ssa.Convert)
+				if !ok {
+					continue
+				}
+				from, to := kindOfBasic(cv.X.Type()), kindOfBasic(cv.Type())
+				if from != "float" || to != "int" {
+					continue
+				}
+				n++
+				src := sources(cv.X)
+				digits := src["call:ParseFloat"] || src["call:Atoi"] || src["call:ParseInt"] || src["call:ParseUint"]
+				rounded := false
+				if call, isC := cv.X.(*ssa.Call); isC {
+					if cal := call.Call.StaticCallee(); cal != nil && fnPkgPath(cal) == "math" && (cal.Name() == "Round" || cal.Name() == "RoundToEven") {
+						rounded = true
+					}
+				}
+				r.Check("C17.3", fmt.Sprintf("C17.3:float→int#%d@%s", n, c.Key(f)), cv.Pos(), !digits || rounded, "the float depends on a length only (exact) or is rounded first",
+					"the interval codec truncates a floating-point value computed from the parsed digits to an integer: decimal fractions are not exact in binary floating point, so some stored durations come back one nanosecond short")
+			}
+		}
+	}
+	if c.Fn("internal/sqltypes.ParsePostgreSQLInterval") == nil {
+		r.Fail("C17.3", "anchor:internal/sqltypes.ParsePostgreSQLInterval", 0, "codec entry point not found")
+	}
+}
+
+func kindOfBasic(t types.Type) string {
+	b, ok := t.Underlying().(*types.Basic)
+	if !ok {
+		return ""
+	}
+	switch {
+	case b.Info()&types.IsFloat != 0:
+		return "float"
+	case b.Info()&types.IsInteger != 0:
+		return "int"
+	}
+	return ""
 }
